@@ -1,5 +1,1205 @@
-//! C12 — not built yet.
+//! C12 — typesetting a paragraph conserves its content and honours the geometry.
+//! Engine: BEX. DESIGN.md §3 C12. Reference model: reftex::para.
+//!
+//! Three oracles per paragraph:
+//!  (1) text -> horizontal list: per-word spelling and the space-factor glue model (TeX §1034, §1041-1044);
+//!  (2) reference `post_line_break` (TeX §877-890) applied to the breakpoints the implementation
+//!      chose: line contents, box width / shift, glue set, penalties between the lines;
+//!  (3) model-independent conservation: un-breaking the line boxes reproduces the list that was
+//!      broken, and no line after the first begins with discardable material of its own.
+
+use boxworks::ds::{self, Horizontal as H, Vertical as V};
+use boxworks::{FontRepo, TextPreprocessor};
+use boxworks_knuthplass as kp;
+use boxworks_text as bwt;
+use common::{Glue, GlueOrder, Scaled};
+use reftex::para::{self, FontSpace, Item, KernKind, ParParams, PlbSwitches, SfSwitches, Spec};
+use serde_json::{json, Value};
+use vcore::{catch, Acc, Ctx, Level};
+
+const PT: i32 = 65536;
+/// set in replay mode: the single case prints what the implementation produced
+static TRACE: std::sync::atomic::AtomicBool = std::sync::atomic::AtomicBool::new(false);
+
+// ------------------------------------------------------------------------------------ resources
+
+struct Res {
+    tfm: tfm::File,
+    lkp: tfm::ligkern::CompiledProgram,
+    fonts: bwt::TfmFontRepo,
+    hyph: boxworks_hyphenate::Hyphenator,
+    font_space: FontSpace,
+    repo: String,
+}
+
+fn load_res() -> Result<Res, String> {
+    let repo = std::env::var("VERIF_REPO").unwrap_or_else(|_| "/repo".into());
+    let path = format!("{repo}/crates/tfm/corpus/computer-modern/cmr10.tfm");
+    let bytes = std::fs::read(&path).map_err(|e| format!("cannot read {path}: {e}"))?;
+    let mut tfm_file = tfm::File::deserialize(&bytes).0.map_err(|e| format!("cmr10.tfm does not parse: {e:?}"))?;
+    let lkp = tfm::ligkern::CompiledProgram::compile_from_tfm_file(&mut tfm_file).0;
+    let mut fonts: bwt::TfmFontRepo = Default::default();
+    fonts.register_font(0, tfm_file.clone());
+    let hyph = boxworks_hyphenate::Hyphenator::plain_tex_en_us(lkp.clone());
+    let fs = |n| tfm_file.named_param_scaled(n).map(|s| s.0 as i64).ok_or_else(|| "cmr10 lacks a font parameter".to_string());
+    let font_space = FontSpace { space: Spec::new(fs(tfm::NamedParameter::Space)?, fs(tfm::NamedParameter::Stretch)?, fs(tfm::NamedParameter::Shrink)?), extra: fs(tfm::NamedParameter::ExtraSpace)? };
+    Ok(Res { tfm: tfm_file, lkp, fonts, hyph, font_space, repo })
+}
+
+/// The toy font of the hand-built lists (design-probes/kp_probe.rs).
+struct Toy;
+fn toy_w(c: char) -> i32 {
+    (match c {
+        'a' => 5,
+        'b' => 3,
+        'c' => 2,
+        '-' => 1,
+        _ => 4,
+    }) * PT
+}
+impl FontRepo for Toy {
+    fn width(&self, c: char, _f: u32) -> Option<Scaled> {
+        Some(Scaled(toy_w(c)))
+    }
+    fn height(&self, _c: char, _f: u32) -> Option<Scaled> {
+        Some(Scaled::ZERO)
+    }
+    fn depth(&self, _c: char, _f: u32) -> Option<Scaled> {
+        Some(Scaled::ZERO)
+    }
+}
+struct NoHyph;
+impl boxworks::Hyphenator for NoHyph {
+    fn hyphenate(&self, _l: &mut Vec<H>) {}
+}
+
+// ---------------------------------------------------------------------------------- conversions
+
+fn spec(g: &Glue) -> Spec {
+    Spec { w: g.width.0 as i64, st: g.stretch.0 as i64, st_o: g.stretch_order as u8, sh: g.shrink.0 as i64, sh_o: g.shrink_order as u8 }
+}
+fn order(o: u8) -> GlueOrder {
+    match o {
+        0 => GlueOrder::Normal,
+        1 => GlueOrder::Fil,
+        2 => GlueOrder::Fill,
+        _ => GlueOrder::Filll,
+    }
+}
+fn glue(s: &Spec) -> Glue {
+    Glue { width: Scaled(s.w as i32), stretch: Scaled(s.st as i32), stretch_order: order(s.st_o), shrink: Scaled(s.sh as i32), shrink_order: order(s.sh_o) }
+}
+fn kkind(k: ds::KernKind) -> KernKind {
+    match k {
+        ds::KernKind::Normal => KernKind::Normal,
+        ds::KernKind::Explicit => KernKind::Explicit,
+        ds::KernKind::Accent => KernKind::Accent,
+        ds::KernKind::Math => KernKind::Math,
+    }
+}
+fn whd<F: FontRepo>(fr: &F, c: char, f: u32) -> [i64; 3] {
+    match fr.width_height_depth(c, f) {
+        Some([w, h, d]) => [w.0 as i64, h.0 as i64, d.0 as i64],
+        None => [0, 0, 0],
+    }
+}
+fn conv<F: FontRepo>(h: &H, fr: &F) -> Item {
+    match h {
+        H::Char(c) => Item::Char { c: c.char as u32, font: c.font, whd: whd(fr, c.char, c.font) },
+        H::Ligature(l) => Item::Lig { c: l.char as u32, font: l.font, orig: l.original_chars.to_string(), lb: l.includes_left_boundary, rb: l.includes_right_boundary, whd: whd(fr, l.char, l.font) },
+        H::Glue(g) if g.kind == ds::GlueKind::Normal => Item::Glue(spec(&g.value)),
+        H::Kern(k) => Item::Kern { w: k.width.0 as i64, kind: kkind(k.kind) },
+        H::Penalty(p) => Item::Penalty(p.0 as i64),
+        H::Discretionary(d) => Item::Disc { pre: d.pre_break.iter().map(|e| conv(&H::from(e.clone()), fr)).collect(), post: d.post_break.iter().map(|e| conv(&H::from(e.clone()), fr)).collect(), replace: d.replace_count as usize },
+        H::Math(m) => Item::Math(*m == ds::Math::After),
+        other => Item::Other(format!("{other:?}").chars().take(60).collect()),
+    }
+}
+fn conv_list<F: FontRepo>(l: &[H], fr: &F) -> Vec<Item> {
+    l.iter().map(|h| conv(h, fr)).collect()
+}
+
+// ------------------------------------------------------------------------------ text and settings
+
+/// DESIGN §3 C12 vocabulary plus three words that force space-factor collisions the first eleven
+/// cannot: a capital directly before a period (cap at 1000, §1034), an sfcode-0 character after a
+/// period (factor kept), and a factor of exactly 2000 (the `>= 2000` tests of §1043-1044).
+const VOCAB: [&str; 14] = ["a", "fi", "ffl", "AV", "end.", "Mr.", "so,", "x-y", "--", "difficult", "I", "A.", "b.)", "it:"];
+
+/// The idx-th word sequence (shortest first, lengths 1..).
+fn nth_words(idx: u64) -> Vec<&'static str> {
+    vcore::nth_string(VOCAB.len() as u64, idx + 1).into_iter().map(|j| VOCAB[j as usize]).collect()
+}
+fn count_words(maxlen: u32) -> u64 {
+    vcore::strings_upto(VOCAB.len() as u64, maxlen) - 1
+}
+
+/// Spacing variants of a word sequence. None = the variant repeats an earlier one.
+fn spaced(words: &[&str], variant: u64) -> Option<String> {
+    let single = words.join(" ");
+    let double = words.join("  ");
+    match variant {
+        0 => Some(single),
+        1 => Some(format!(" {single}")),
+        2 => Some(format!("{single} ")),
+        3 => {
+            if words.len() < 2 {
+                None
+            } else {
+                Some(double)
+            }
+        }
+        _ => Some(format!("  {double}   ")),
+    }
+}
+const SPACINGS: u64 = 5;
+
+/// Second `\sfcode` table (forces collisions the plain table cannot produce: a lower-case letter
+/// below 1000, a capital at 1000, the hyphen above 2000).
+fn sf_code_alt(c: u32) -> i64 {
+    match c {
+        0x61 => 800,  // a
+        0x49 => 1000, // I
+        0x2d => 2500, // -
+        0x79 => 0,    // y
+        _ => para::plain_sf_code(c),
+    }
+}
+
+#[derive(Clone, Copy)]
+struct SkipSet {
+    name: &'static str,
+    ss: Spec,
+    xs: Spec,
+    alt_codes: bool,
+}
+fn skip_sets() -> Vec<SkipSet> {
+    let p = PT as i64;
+    let ss1 = Spec::new(5 * p, 2 * p, p);
+    let xs1 = Spec::new(9 * p, p, 0);
+    vec![
+        SkipSet { name: "default", ss: Spec::ZERO, xs: Spec::ZERO, alt_codes: false },
+        SkipSet { name: "spaceskip=5pt plus 2pt minus 1pt", ss: ss1, xs: Spec::ZERO, alt_codes: false },
+        SkipSet { name: "xspaceskip=9pt plus 1pt", ss: Spec::ZERO, xs: xs1, alt_codes: false },
+        SkipSet { name: "spaceskip and xspaceskip", ss: ss1, xs: xs1, alt_codes: false },
+        SkipSet { name: "spaceskip=4pt plus 1fil minus 2pt", ss: Spec { w: 4 * p, st: p, st_o: 1, sh: 2 * p, sh_o: 0 }, xs: Spec::ZERO, alt_codes: false },
+        SkipSet { name: "spaceskip=0pt plus 3pt", ss: Spec::new(0, 3 * p, 0), xs: Spec::ZERO, alt_codes: false },
+        SkipSet { name: "spaceskip=3pt plus -1pt minus -0.5pt", ss: Spec::new(3 * p, -p, -p / 2), xs: Spec::ZERO, alt_codes: false },
+        SkipSet { name: "alt sfcodes", ss: Spec::ZERO, xs: Spec::ZERO, alt_codes: true },
+        SkipSet { name: "alt sfcodes, spaceskip and xspaceskip", ss: ss1, xs: xs1, alt_codes: true },
+    ]
+}
+
+fn text_params(s: &SkipSet) -> bwt::Params {
+    let mut p = bwt::Params::plain_tex_defaults();
+    p.space_skip = glue(&s.ss);
+    p.extra_space_skip = glue(&s.xs);
+    if s.alt_codes {
+        for c in 0..256u32 {
+            p.space_factor_codes.0[c as usize] = sf_code_alt(c) as i32;
+        }
+    }
+    p
+}
+
+fn make_hlist(res: &Res, s: &SkipSet, text: &str) -> Vec<H> {
+    let mut tp = bwt::TextPreprocessorImpl::new(text_params(s));
+    tp.register_font(0, &res.tfm, res.lkp.clone());
+    tp.activate_font(0);
+    let mut list = vec![];
+    tp.add_text(text, &mut list);
+    list
+}
+
+// ------------------------------------------------------------------------------ oracle 1: hlist
+
+fn glues_of(l: &[Item]) -> Vec<Spec> {
+    l.iter().filter_map(|i| if let Item::Glue(g) = i { Some(*g) } else { None }).collect()
+}
+
+fn check_hlist(idx: u64, res: &Res, text: &str, skip_idx: usize, acc: &mut Acc) {
+    let sets = skip_sets();
+    let s = &sets[skip_idx];
+    acc.eval();
+    let case = || json!({"kind": "hlist", "text": text, "skips": skip_idx, "skips_name": s.name});
+    let list = match catch(|| make_hlist(res, s, text)) {
+        Ok(l) => l,
+        Err(p) => {
+            acc.class("FAIL panic in add_text");
+            acc.fail(idx, case(), "a horizontal list", p.describe(), "add_text panicked");
+            return;
+        }
+    };
+    let items = conv_list(&list, &res.fonts);
+    let words = para::split_words(text);
+    let code: &dyn Fn(u32) -> i64 = if s.alt_codes { &sf_code_alt } else { &para::plain_sf_code };
+    // a trailing space token gives glue that §816 removes again: both forms are the same paragraph
+    let impl_trailing = words.trailing && matches!(items.last(), Some(Item::Glue(_)));
+    let (want, sfs) = match para::text_glues(&words, code, &res.font_space, &s.ss, &s.xs, SfSwitches::default(), impl_trailing) {
+        Ok(x) => x,
+        Err(()) => {
+            acc.skipped += 1;
+            return;
+        }
+    };
+    // vacuity counters, from the case and the model
+    if sfs.iter().any(|f| *f != 1000) {
+        acc.nontrivial();
+        if !s.ss.is_zero_glue() && sfs.iter().any(|f| *f != 1000 && !(*f >= 2000 && !s.xs.is_zero_glue())) {
+            acc.count("spaceskip_with_sf_not_1000");
+        }
+    }
+    if !s.xs.is_zero_glue() && sfs.iter().any(|f| *f >= 2000) {
+        acc.count("xspaceskip_with_sf_ge_2000");
+    }
+    if sfs.iter().any(|f| *f < 1000) {
+        acc.count("sf_below_1000");
+    }
+    {
+        // a large sfcode right after a small space factor is capped at 1000 (§1034); it is visible
+        // when that character is the last one before a space. An sfcode of 0 keeps the factor.
+        let mut sf = 1000;
+        let n = words.words.len();
+        for (wi, w) in words.words.iter().enumerate() {
+            let mut capped_last = false;
+            let mut kept_large = false;
+            for c in w.chars() {
+                let cd = code(c as u32);
+                capped_last = cd > 1000 && sf < 1000;
+                kept_large = cd == 0 && sf != 1000;
+                sf = para::adjust_sf(sf, cd);
+            }
+            if wi + 1 < n && capped_last {
+                acc.count("sf_capped_before_space");
+            }
+            if wi + 1 < n && kept_large {
+                acc.count("sfcode_zero_keeps_factor_before_space");
+            }
+        }
+    }
+    if !s.xs.is_zero_glue() && sfs.iter().any(|f| *f == 2000) {
+        acc.count("xspaceskip_with_sf_exactly_2000");
+    }
+    if s.xs.is_zero_glue() && sfs.iter().any(|f| *f >= 2000) {
+        acc.count("extra_space_added");
+    }
+    // shape: only characters, ligatures, font kerns and empty discretionaries between the glue
+    for it in &items {
+        let ok = match it {
+            Item::Char { .. } | Item::Lig { .. } | Item::Glue(_) => true,
+            Item::Kern { kind, .. } => *kind == KernKind::Normal,
+            Item::Disc { pre, post, replace } => pre.is_empty() && post.is_empty() && *replace == 0,
+            _ => false,
+        };
+        if !ok {
+            acc.class("FAIL unexpected item in the list made from text");
+            acc.fail(idx, case(), "characters, ligatures, font kerns, glue, empty discretionaries", it.show(), "unexpected item in the horizontal list");
+            return;
+        }
+    }
+    // spelling, word by word
+    let mut want_words: Vec<String> = vec![];
+    if words.leading {
+        want_words.push(String::new());
+    }
+    want_words.extend(words.words.iter().cloned());
+    if impl_trailing {
+        want_words.push(String::new());
+    }
+    let got_words = para::word_spellings(&items);
+    if got_words != want_words {
+        acc.class("FAIL hlist does not spell the words");
+        acc.fail(idx, case(), format!("{want_words:?}"), format!("{got_words:?}  list: {}", para::show_list(&items)), "the horizontal list does not spell the input words between its glue items");
+        return;
+    }
+    let got = glues_of(&items);
+    if got != want {
+        let d10b = para::text_glues(&words, code, &res.font_space, &s.ss, &s.xs, SfSwitches { scale_spaceskip: false }, impl_trailing).map(|x| x.0 == got).unwrap_or(false);
+        let i = got.iter().zip(want.iter()).position(|(a, b)| a != b).unwrap_or(got.len().min(want.len()));
+        let class = if d10b { "D10b: \\spaceskip is not adjusted by the space factor (TeX §1043-1044)" } else { "inter-word glue differs from TeX §1041-1044" };
+        acc.class(&format!("FAIL {class}"));
+        acc.fail(
+            idx,
+            case(),
+            format!("glue #{i}: {} (space factor {})", want.get(i).map(|g| g.show()).unwrap_or("-".into()), sfs.get(i).copied().unwrap_or(0)),
+            format!("glue #{i}: {}", got.get(i).map(|g| g.show()).unwrap_or("-".into())),
+            class,
+        );
+        return;
+    }
+    acc.class(&format!("ok hlist glues={} sf-classes={}", got.len().min(6), {
+        let mut c: Vec<i64> = sfs.clone();
+        c.sort();
+        c.dedup();
+        c.len()
+    }));
+}
+
+// -------------------------------------------------------------------- oracles 2 and 3: paragraphs
+
+struct KpSet {
+    p: kp::Params,
+}
+
+fn par_params(p: &kp::Params, widths: &[Scaled], indents: &[Scaled]) -> ParParams {
+    ParParams {
+        left_skip: spec(&p.left_skip),
+        right_skip: spec(&p.right_skip),
+        widths: widths.iter().map(|w| w.0 as i64).collect(),
+        indents: indents.iter().map(|w| w.0 as i64).collect(),
+        inter_line_penalty: p.inter_line_penalty as i64,
+        club_penalty: p.club_penalty as i64,
+        widow_penalty: p.final_widow_penalty as i64,
+        broken_penalty: p.broken_penalty as i64,
+    }
+}
+
+struct Broken {
+    vlist: Vec<V>,
+    after: Vec<H>,
+    breaks: Vec<usize>,
+    after2: Vec<H>,
+}
+
+fn run_breaker<F: FontRepo>(list0: &[H], fr: &F, hy: &dyn boxworks::Hyphenator, p: &kp::Params, widths: &[Scaled], indents: &[Scaled]) -> Broken {
+    use boxworks::LineBreaker as _;
+    let mut vlist: Vec<V> = vec![];
+    let mut after = list0.to_vec();
+    {
+        let lb = kp::LineBreaker { params: p, line_widths: widths, line_indents: indents, debug_logger: None, hyphenator: hy };
+        lb.break_line(fr, &mut vlist, &mut after);
+    }
+    // the breakpoints the implementation chose: the same public entry point break_line uses, on a
+    // list prepared as break_line prepares it (TeX §816)
+    let mut after2 = list0.to_vec();
+    if matches!(after2.last(), Some(H::Glue(_))) {
+        after2.pop();
+    }
+    after2.push(H::Penalty(ds::Penalty::INFINITE));
+    after2.push(H::Glue(ds::Glue { kind: ds::GlueKind::Normal, value: p.par_fill_skip }));
+    let mut lb = kp::LineBreaker { params: p, line_widths: widths, line_indents: indents, debug_logger: None, hyphenator: hy };
+    let mut scratch: Vec<V> = vec![];
+    let breaks = lb.break_line_all_attempts(fr, hy, &mut scratch, &mut after2);
+    Broken { vlist, after, breaks, after2 }
+}
+
+fn show_lines(lines: &[Vec<Item>]) -> String {
+    lines.iter().enumerate().map(|(i, l)| format!("[{i}] {}", para::show_list(l))).collect::<Vec<_>>().join("  ")
+}
+
+#[allow(clippy::too_many_arguments)]
+fn check_para<F: FontRepo>(idx: u64, acc: &mut Acc, case: &dyn Fn() -> Value, list0: &[H], fr: &F, hy: &dyn boxworks::Hyphenator, hyph_on: bool, kps: &KpSet, widths: &[Scaled], indents: &[Scaled], want_spelling: Option<&str>) {
+    acc.eval();
+    let p = &kps.p;
+    let br = match catch(|| run_breaker(list0, fr, hy, p, widths, indents)) {
+        Ok(b) => b,
+        Err(pn) => {
+            acc.class(&format!("FAIL panic {}", pn.site()));
+            acc.fail(idx, case(), "line boxes", pn.describe(), "break_line panicked");
+            return;
+        }
+    };
+    let hl = conv_list(&br.after, fr);
+    let l0 = conv_list(list0, fr);
+    let pfs = spec(&p.par_fill_skip);
+    let pp = par_params(p, widths, indents);
+    // §816 (and, without hyphenation, nothing else) happened to the list
+    if !hyph_on {
+        let want = para::prepare(&l0, &pfs);
+        if hl != want {
+            acc.class("FAIL list preparation differs from TeX §816");
+            acc.fail(idx, case(), para::show_list(&want), para::show_list(&hl), "the list that was broken is not the input list with the final glue removed and \\penalty10000\\parfillskip appended");
+            return;
+        }
+    } else if hl.len() < 2 || hl[hl.len() - 2] != Item::Penalty(10000) || hl[hl.len() - 1] != Item::Glue(pfs) {
+        acc.class("FAIL list preparation differs from TeX §816");
+        acc.fail(idx, case(), "… pen(10000) parfillskip", para::show_list(&hl), "the list that was broken does not end with \\penalty10000\\parfillskip");
+        return;
+    }
+    if br.after != br.after2 {
+        acc.class("FAIL break_line and break_line_all_attempts leave different lists");
+        acc.fail(idx, case(), para::show_list(&hl), para::show_list(&conv_list(&br.after2, fr)), "two runs of the breaker on the same input leave different horizontal lists");
+        return;
+    }
+    if let Some(w) = want_spelling {
+        let got = para::spelling(&hl);
+        if got != w {
+            acc.class("FAIL the list that was broken does not spell the words");
+            acc.fail(idx, case(), w, format!("{got}  list: {}", para::show_list(&hl)), "the list that was broken (discretionaries not taken) does not spell the input words");
+            return;
+        }
+    }
+    // the vertical list: boxes, each optionally followed by one penalty; inter-line glue is not compared
+    let mut boxes: Vec<(&ds::HBox, Option<i64>)> = vec![];
+    let mut shape_err: Option<String> = None;
+    let mut prev_pen = false;
+    for v in &br.vlist {
+        match v {
+            V::HBox(b) => {
+                boxes.push((b, None));
+                prev_pen = false;
+            }
+            V::Penalty(pn) => match boxes.last_mut() {
+                Some(l) if !prev_pen => {
+                    l.1 = Some(pn.0 as i64);
+                    prev_pen = true;
+                }
+                _ => shape_err = Some("penalty without a preceding line box, or two penalties in a row".into()),
+            },
+            V::Glue(_) => {}
+            other => shape_err = Some(format!("unexpected vertical item {other:?}")),
+        }
+    }
+    if let Some(e) = shape_err {
+        acc.class("FAIL vertical list shape");
+        acc.fail(idx, case(), "hbox [penalty] glue hbox …", e, "shape of the vertical list");
+        return;
+    }
+    let impl_lines: Vec<Vec<Item>> = boxes.iter().map(|(b, _)| conv_list(&b.list, fr)).collect();
+    if TRACE.load(std::sync::atomic::Ordering::Relaxed) {
+        eprintln!("list that was broken: {}\nbreakpoints: {:?}\nlines: {}\npenalties after the lines: {:?}", para::show_list(&hl), br.breaks, show_lines(&impl_lines), boxes.iter().map(|b| b.1).collect::<Vec<_>>());
+    }
+
+    // ---- oracle 2
+    let model = match para::post_line_break(&hl, &br.breaks, &pp, PlbSwitches::default()) {
+        Ok(m) => m,
+        Err(e) => {
+            acc.class("FAIL breakpoints are not usable");
+            acc.fail(idx, case(), "breakpoints at legal places, increasing, the last at the end of the list", format!("{:?}: {e}; list {}", br.breaks, para::show_list(&hl)), "post_line_break cannot be applied to the chosen breakpoints");
+            return;
+        }
+    };
+    // collision counters from the model's run
+    let nl = model.len();
+    if nl >= 2 {
+        acc.nontrivial();
+    }
+    for (k, l) in model.iter().enumerate() {
+        if l.pruned >= 1 {
+            acc.count("pruned_after_break");
+        }
+        if l.pruned >= 2 {
+            acc.count("pruned_two_or_more");
+        }
+        if l.carried_post > 0 {
+            acc.count("post_break_carried_over");
+        }
+        if l.disc_break && l.replaced > 0 {
+            acc.count("break_at_discretionary_with_replace_count");
+        }
+        if l.disc_break && l.pruned >= 1 {
+            acc.count("pruned_after_discretionary_break");
+        }
+        if l.disc_break {
+            acc.count("break_at_discretionary");
+        }
+        if l.penalty_sum == Some(0) && (pp.club_penalty != 0 || pp.inter_line_penalty != 0) {
+            acc.count("penalty_sum_zero_no_node");
+        }
+        if l.prune_stopped_at_break {
+            acc.count("prune_stopped_at_next_break");
+        }
+        if l.packed.overfull {
+            acc.count("overfull_line");
+        }
+        if k >= pp.widths.len() && pp.widths.len() > 1 {
+            acc.count("line_beyond_width_sequence");
+        }
+    }
+    if nl == 2 {
+        acc.count("club_and_widow_on_same_line");
+    }
+    if nl >= 4 {
+        acc.count("four_or_more_lines");
+    }
+    // Oracle 2 and oracle 3 are judged independently; a case fails if either does.
+    let mut problems: Vec<(String, String, String)> = vec![];
+    let model_lines: Vec<Vec<Item>> = model.iter().map(|l| l.items.clone()).collect();
+    'o2: {
+        if impl_lines != model_lines {
+            let adjusted = para::post_line_break(&hl, &br.breaks, &pp, PlbSwitches { prune: false }).map(|m| m.iter().map(|l| l.items.clone()).collect::<Vec<_>>());
+            let class = if adjusted.as_ref().map(|a| *a == impl_lines).unwrap_or(false) {
+                "D10: discardable items after a break stay at the start of the next line (TeX §879 prunes them)"
+            } else if impl_lines.len() != model_lines.len() {
+                "number of lines differs from the number of breakpoints"
+            } else {
+                "line contents differ from TeX §880-887"
+            };
+            problems.push((format!("post_line_break: {class}"), format!("breaks {:?}: {}", br.breaks, show_lines(&model_lines)), show_lines(&impl_lines)));
+            break 'o2;
+        }
+        for (k, ((b, pen), m)) in boxes.iter().zip(model.iter()).enumerate() {
+            if b.width.0 as i64 != m.width || b.shift_amount.0 as i64 != m.shift {
+                problems.push(("post_line_break: line box width/indent differs from the requested one (TeX §889)".into(), format!("line {k}: width {} shift {}", m.width, m.shift), format!("line {k}: width {} shift {}", b.width.0, b.shift_amount.0)));
+                break 'o2;
+            }
+            if *pen != m.penalty_after {
+                problems.push(("post_line_break: penalty after a line differs from TeX §890".into(), format!("line {k} of {nl}: {:?}", m.penalty_after), format!("line {k} of {nl}: {pen:?}")));
+                break 'o2;
+            }
+            let (mn, md) = m.packed.set.magnitude();
+            let (inum, iden) = ((b.glue_ratio.num.0 as i128).abs(), (b.glue_ratio.den.0 as i128).abs());
+            let ratio_ok = iden != 0 && inum * md as i128 == mn as i128 * iden;
+            let order_ok = mn == 0 || b.glue_order as u8 == m.packed.set.order;
+            if !ratio_ok || !order_ok {
+                problems.push(("post_line_break: glue set of a line differs from hpack (TeX §658-664)".into(), format!("line {k}: order {} ratio {mn}/{md} (natural {} -> {})", m.packed.set.order, m.packed.natural, m.width), format!("line {k}: order {:?} ratio {}/{}", b.glue_order, b.glue_ratio.num.0, b.glue_ratio.den.0)));
+                break 'o2;
+            }
+        }
+    }
+    // ---- oracle 3 (uses neither the model's lines nor the reported breakpoints)
+    if boxes.iter().enumerate().any(|(k, (b, _))| b.width.0 as i64 != pp.width(k) || b.shift_amount.0 as i64 != pp.indent(k)) {
+        problems.push(("geometry: a line box does not have the requested width and indent".into(), format!("widths {:?} indents {:?}", pp.widths, pp.indents), format!("{:?}", boxes.iter().map(|(b, _)| (b.width.0, b.shift_amount.0)).collect::<Vec<_>>())));
+    }
+    match para::unbreak(&hl, &impl_lines, &pp.left_skip, &pp.right_skip) {
+        Err(e) => problems.push(("conservation: the lines do not read back as the list that was broken".into(), format!("list {}", para::show_list(&hl)), format!("{e}; lines {}", show_lines(&impl_lines)))),
+        Ok(u) => {
+            if !u.starts_with_discardable.is_empty() {
+                problems.push(("conservation: a line begins with discardable material".into(), "no line after the first begins with glue, penalty or explicit kern of its own".into(), format!("lines {:?} of {}", u.starts_with_discardable, show_lines(&impl_lines))));
+            }
+            if u.dropped.iter().any(|d| *d > 0) {
+                acc.count("unbreak_dropped_discardables");
+            }
+        }
+    }
+    if !problems.is_empty() {
+        for (c, _, _) in &problems {
+            acc.class(&format!("FAIL {c}"));
+        }
+        let note = problems.iter().map(|p| p.0.clone()).collect::<Vec<_>>().join(" + ");
+        let (_, e, o) = problems.swap_remove(0);
+        acc.fail(idx, case(), e, o, note);
+        return;
+    }
+    acc.class(&format!("ok lines={} disc_breaks={} pruned={} pens={:?}", nl.min(8), model.iter().filter(|l| l.disc_break).count().min(3), model.iter().map(|l| l.pruned).sum::<usize>().min(4), model.iter().filter_map(|l| l.penalty_after).take(3).collect::<Vec<_>>()));
+}
+
+// -------------------------------------------------------------------------------- text paragraphs
+
+struct Geom {
+    name: &'static str,
+    widths: Vec<i32>,
+    indents: Vec<i32>,
+}
+fn geoms() -> Vec<Geom> {
+    let g = |name, w: &[i32], i: &[i32]| Geom { name, widths: w.to_vec(), indents: i.to_vec() };
+    vec![
+        g("36pt", &[36], &[]),
+        g("90pt", &[90], &[]),
+        g("400pt", &[400], &[]),
+        g("20pt", &[20], &[]),
+        g("60pt,36pt indent 10pt,0pt", &[60, 36], &[10, 0]),
+        g("36pt,90pt,60pt indent 0pt,5pt,-3pt", &[36, 90, 60], &[0, 5, -3]),
+        g("90pt indent 3pt,0pt,7pt", &[90], &[3, 0, 7]),
+        g("50pt,45pt,40pt indent 7pt", &[50, 45, 40], &[7]),
+    ]
+}
+
+/// One parameter changed from the plain TeX defaults. `group`: tweaks of one group touch the same parameter.
+struct Tweak {
+    name: &'static str,
+    group: u8,
+    f: fn(&mut kp::Params, &mut SkipSet),
+}
+fn tweaks() -> Vec<Tweak> {
+    fn g(w: i32, st: i32, sh: i32) -> Glue {
+        Glue { width: Scaled(w * PT), stretch: Scaled(st * PT), shrink: Scaled(sh * PT), ..Default::default() }
+    }
+    vec![
+        Tweak { name: "leftskip=5pt", group: 0, f: |p, _| p.left_skip = g(5, 0, 0) },
+        Tweak { name: "leftskip=0pt plus 10pt", group: 0, f: |p, _| p.left_skip = g(0, 10, 0) },
+        Tweak { name: "rightskip=0pt plus 20pt", group: 1, f: |p, _| p.right_skip = g(0, 20, 0) },
+        Tweak { name: "rightskip=7pt minus 2pt", group: 1, f: |p, _| p.right_skip = g(7, 0, 2) },
+        Tweak { name: "parfillskip=0pt", group: 2, f: |p, _| p.par_fill_skip = Glue::ZERO },
+        Tweak { name: "parfillskip=10pt plus 1fill", group: 2, f: |p, _| p.par_fill_skip = Glue { width: Scaled(10 * PT), stretch: Scaled(PT), stretch_order: GlueOrder::Fill, ..Default::default() } },
+        Tweak { name: "spaceskip=5pt plus 2pt minus 1pt", group: 3, f: |_, s| s.ss = Spec::new(5 * PT as i64, 2 * PT as i64, PT as i64) },
+        Tweak { name: "xspaceskip=9pt plus 1pt", group: 4, f: |_, s| s.xs = Spec::new(9 * PT as i64, PT as i64, 0) },
+        Tweak { name: "clubpenalty=0", group: 5, f: |p, _| p.club_penalty = 0 },
+        Tweak { name: "clubpenalty=10000", group: 5, f: |p, _| p.club_penalty = 10000 },
+        Tweak { name: "widowpenalty=77", group: 6, f: |p, _| p.final_widow_penalty = 77 },
+        Tweak { name: "brokenpenalty=33", group: 7, f: |p, _| p.broken_penalty = 33 },
+        Tweak { name: "interlinepenalty=5", group: 8, f: |p, _| p.inter_line_penalty = 5 },
+        Tweak { name: "interlinepenalty=-150", group: 8, f: |p, _| p.inter_line_penalty = -150 },
+        Tweak { name: "looseness=1", group: 9, f: |p, _| p.looseness = 1 },
+        Tweak { name: "looseness=-1", group: 9, f: |p, _| p.looseness = -1 },
+        Tweak { name: "tolerance=10000", group: 10, f: |p, _| p.tolerance = 10000 },
+        Tweak { name: "pretolerance=-1", group: 11, f: |p, _| p.pre_tolerance = -1 },
+        Tweak { name: "hyphenpenalty=-2000", group: 12, f: |p, _| p.hyphen_penalty = -2000 },
+        Tweak { name: "exhyphenpenalty=-2000", group: 13, f: |p, _| p.ex_hyphen_penalty = -2000 },
+        Tweak { name: "emergencystretch=20pt", group: 14, f: |p, _| p.emergency_stretch = Scaled(20 * PT) },
+    ]
+}
+
+/// Settings: 0 = defaults, 1..=T single tweaks, then (thorough) pairs from different groups.
+fn settings(pairs: bool) -> Vec<Vec<usize>> {
+    let tw = tweaks();
+    let mut out: Vec<Vec<usize>> = vec![vec![]];
+    for i in 0..tw.len() {
+        out.push(vec![i]);
+    }
+    if pairs {
+        for i in 0..tw.len() {
+            for j in i + 1..tw.len() {
+                if tw[i].group != tw[j].group {
+                    out.push(vec![i, j]);
+                }
+            }
+        }
+    }
+    out
+}
+
+/// The paragraph text of a word sequence: three-word sequences are extended as in the design probe
+/// (`w1 w2 w3 w1w3 w2`), which adds two words glued together and gives up to five lines.
+fn para_text(words: &[&str]) -> String {
+    if words.len() == 3 {
+        format!("{} {} {} {}{} {}", words[0], words[1], words[2], words[0], words[2], words[1])
+    } else {
+        words.join(" ")
+    }
+}
+
+fn check_text_para(idx: u64, res: &Res, text: &str, geom: usize, tweak_sel: &[usize], hyph_on: bool, acc: &mut Acc) {
+    let gs = geoms();
+    let tw = tweaks();
+    let g = &gs[geom];
+    let mut p = kp::Params::plain_tex_defaults();
+    let mut s = skip_sets()[0];
+    for t in tweak_sel {
+        (tw[*t].f)(&mut p, &mut s);
+    }
+    let names: Vec<&str> = tweak_sel.iter().map(|t| tw[*t].name).collect();
+    let case = || json!({"kind": "text", "text": text, "geom": geom, "geom_name": g.name, "tweaks": tweak_sel, "tweak_names": names, "hyph": hyph_on});
+    let list0 = match catch(|| make_hlist(res, &s, text)) {
+        Ok(l) => l,
+        Err(pn) => {
+            acc.eval();
+            acc.fail(idx, case(), "a horizontal list", pn.describe(), "add_text panicked");
+            return;
+        }
+    };
+    let widths: Vec<Scaled> = g.widths.iter().map(|w| Scaled(w * PT)).collect();
+    let indents: Vec<Scaled> = g.indents.iter().map(|w| Scaled(w * PT)).collect();
+    let spelled: String = text.split(' ').collect();
+    let hy: &dyn boxworks::Hyphenator = if hyph_on { &res.hyph } else { &NoHyph };
+    check_para(idx, acc, &case, &list0, &res.fonts, hy, hyph_on, &KpSet { p }, &widths, &indents, Some(&spelled));
+}
+
+// --------------------------------------------------------------------------------- hand-built lists
+
+fn hglue(w: i32, st: i32, sh: i32) -> H {
+    H::Glue(ds::Glue { kind: ds::GlueKind::Normal, value: Glue { width: Scaled(w * PT), stretch: Scaled(st * PT), shrink: Scaled(sh * PT), ..Default::default() } })
+}
+fn hch(c: char) -> H {
+    ds::Char { char: c, font: 0 }.into()
+}
+fn hpen(p: i32) -> H {
+    H::Penalty(ds::Penalty(p))
+}
+fn hdisc(pre: &str, post: &str, rc: u32) -> H {
+    H::Discretionary(ds::Discretionary { pre_break: pre.chars().map(|c| ds::Char { char: c, font: 0 }.into()).collect(), post_break: post.chars().map(|c| ds::Char { char: c, font: 0 }.into()).collect(), replace_count: rc })
+}
+fn hkern(w: i32, kind: ds::KernKind) -> H {
+    ds::Kern { width: Scaled(w * PT), kind }.into()
+}
+
+/// What can stand between two boxes. Entries 0..=13 are the C04 menu without adjacent discardables,
+/// the rest puts discardable items next to each other or next to a discretionary.
+fn slot_menu() -> Vec<(&'static str, Vec<H>)> {
+    use ds::KernKind::{Explicit, Normal};
+    vec![
+        ("glue(2+1-1)", vec![hglue(2, 1, 1)]),
+        ("glue(2+3)", vec![hglue(2, 3, 0)]),
+        ("glue(1-1)", vec![hglue(1, 0, 1)]),
+        ("glue(2)", vec![hglue(2, 0, 0)]),
+        ("pen50", vec![hpen(50)]),
+        ("pen-50", vec![hpen(-50)]),
+        ("pen10000 glue", vec![hpen(10000), hglue(2, 1, 1)]),
+        ("pen-10000", vec![hpen(-10000)]),
+        ("glue(3+2-2)", vec![hglue(3, 2, 2)]),
+        ("disc(-||0)", vec![hdisc("-", "", 0)]),
+        ("disc(||0)", vec![hdisc("", "", 0)]),
+        ("disc(-|c|0)", vec![hdisc("-", "c", 0)]),
+        ("disc(-|b|1) c", vec![hdisc("-", "b", 1), hch('c')]),
+        ("nothing", vec![]),
+        ("glue glue", vec![hglue(1, 1, 0), hglue(1, 0, 1)]),
+        ("kern! glue", vec![hkern(1, Explicit), hglue(2, 1, 1)]),
+        ("pen0 glue pen20 glue", vec![hpen(0), hglue(1, 1, 1), hpen(20), hglue(1, 1, 1)]),
+        ("glue kern!", vec![hglue(2, 1, 1), hkern(1, Explicit)]),
+        ("glue kern", vec![hglue(2, 1, 1), hkern(1, Normal)]),
+        ("disc(-||0) glue", vec![hdisc("-", "", 0), hglue(2, 1, 1)]),
+        ("disc(-|c|0) glue", vec![hdisc("-", "c", 0), hglue(2, 1, 1)]),
+        ("pen-10000 pen-10000", vec![hpen(-10000), hpen(-10000)]),
+        ("glue pen-10000", vec![hglue(2, 1, 1), hpen(-10000)]),
+        ("pen-10000 glue", vec![hpen(-10000), hglue(2, 1, 1)]),
+    ]
+}
+fn tail_menu() -> Vec<(&'static str, Vec<H>)> {
+    vec![("", vec![]), ("glue", vec![hglue(2, 1, 1)]), ("pen-10000", vec![hpen(-10000)]), ("glue glue", vec![hglue(2, 1, 1), hglue(1, 1, 0)])]
+}
+const HAND_WIDTHS: [&[i32]; 4] = [&[9], &[12], &[7, 12], &[12, 7]];
+const HAND_TOLS: [i32; 2] = [200, 10000];
+fn hand_params(pv: u64, tol: i32) -> kp::Params {
+    let mut p = kp::Params::plain_tex_defaults();
+    p.tolerance = tol;
+    match pv {
+        1 => {
+            p.left_skip = Glue { width: Scaled(PT), ..Default::default() };
+            p.right_skip = Glue { stretch: Scaled(2 * PT), ..Default::default() };
+        }
+        2 => {
+            p.inter_line_penalty = 3;
+            p.club_penalty = 7;
+            p.final_widow_penalty = 11;
+            p.broken_penalty = 13;
+        }
+        3 => {
+            p.par_fill_skip = Glue::ZERO;
+            p.hyphen_penalty = -100;
+            p.ex_hyphen_penalty = -100;
+        }
+        _ => {}
+    }
+    p
+}
+const HAND_PVS: u64 = 4;
+
+fn check_hand(idx: u64, slots: &[u64], boxes: &[u64], tail: u64, wsel: u64, tsel: u64, pv: u64, acc: &mut Acc) {
+    let menu = slot_menu();
+    let tails = tail_menu();
+    let mut list: Vec<H> = vec![];
+    for (k, b) in boxes.iter().enumerate() {
+        list.push(hch(if *b == 0 { 'a' } else { 'b' }));
+        if k + 1 < boxes.len() {
+            list.extend(menu[slots[k] as usize].1.iter().cloned());
+        }
+    }
+    list.extend(tails[tail as usize].1.iter().cloned());
+    let widths: Vec<Scaled> = HAND_WIDTHS[wsel as usize].iter().map(|w| Scaled(w * PT)).collect();
+    let indents: Vec<Scaled> = if pv == 1 { vec![Scaled(2 * PT), Scaled::ZERO] } else { vec![] };
+    let p = hand_params(pv, HAND_TOLS[tsel as usize]);
+    let case = || {
+        json!({"kind": "hand", "slots": slots, "boxes": boxes, "tail": tail, "widths": wsel, "tol": tsel, "pv": pv,
+        "list": para::show_list(&conv_list(&list, &Toy)), "line_widths_pt": HAND_WIDTHS[wsel as usize], "tolerance": HAND_TOLS[tsel as usize]})
+    };
+    // collision counter from the case: a legal breakpoint directly followed by a discardable item
+    let items = conv_list(&list, &Toy);
+    for i in 0..items.len().saturating_sub(1) {
+        let legal = match &items[i] {
+            Item::Glue(_) => i > 0 && !items[i - 1].discardable(),
+            Item::Penalty(p) => *p < 10000,
+            Item::Kern { kind, .. } => *kind == KernKind::Explicit && matches!(items[i + 1], Item::Glue(_)),
+            Item::Disc { post, .. } => post.is_empty(),
+            _ => false,
+        };
+        if legal && items[i + 1].discardable() {
+            acc.count("legal_break_followed_by_discardable");
+            break;
+        }
+    }
+    check_para(idx, acc, &case, &list, &Toy, &NoHyph, false, &KpSet { p }, &widths, &indents, None);
+}
+
+// ------------------------------------------------------------------------ model self-validation
+
+struct Golden {
+    test: &'static str,
+    input: &'static str,
+    want: &'static str,
+    widths: &'static [&'static str],
+    tweak: fn(&mut kp::Params, &mut SkipSet),
+}
+fn sc(s: &str) -> Scaled {
+    Scaled::parse_from_string(s).unwrap()
+}
+/// boxworks-knuthplass/src/lib.rs `tests!` table: the `typeset:` files were recorded from TeX
+/// (TEXCRAFT_VERIFY=tex).
+fn goldens() -> Vec<Golden> {
+    vec![
+        Golden { test: "wolf_hall_2in", input: "wolf_hall_input.txt", want: "wolf_hall_2in_want.txt", widths: &["2in"], tweak: |_, _| {} },
+        Golden { test: "wolf_hall_3in", input: "wolf_hall_input.txt", want: "wolf_hall_3in_want.txt", widths: &["3in"], tweak: |_, _| {} },
+        Golden { test: "wolf_hall_1in", input: "wolf_hall_input.txt", want: "wolf_hall_1in_want.txt", widths: &["1in"], tweak: |_, _| {} },
+        Golden { test: "wolf_hall_variable_widths", input: "wolf_hall_input.txt", want: "wolf_hall_variable_widths_want.txt", widths: &["5in", "4in", "3in", "4in"], tweak: |_, _| {} },
+        Golden { test: "wolf_hall_broken_penalty", input: "wolf_hall_input.txt", want: "wolf_hall_broken_penalty_want.txt", widths: &["3in"], tweak: |p, _| p.broken_penalty = 500 },
+        Golden { test: "wolf_hall_club_penalty", input: "wolf_hall_input.txt", want: "wolf_hall_club_penalty_want.txt", widths: &["3in"], tweak: |p, _| p.club_penalty = 1000 },
+        Golden { test: "wolf_hall_final_widow_penalty", input: "wolf_hall_input.txt", want: "wolf_hall_final_widow_penalty_want.txt", widths: &["3in"], tweak: |p, _| p.final_widow_penalty = 1000 },
+        Golden { test: "wolf_hall_inter_line_penalty", input: "wolf_hall_input.txt", want: "wolf_hall_inter_line_penalty_want.txt", widths: &["3in"], tweak: |p, _| p.inter_line_penalty = 100 },
+        Golden { test: "wolf_hall_left_skip", input: "wolf_hall_input.txt", want: "wolf_hall_left_skip_want.txt", widths: &["3in"], tweak: |p, _| p.left_skip = Glue { width: sc("20.0pt"), ..Default::default() } },
+        Golden { test: "wolf_hall_right_skip", input: "wolf_hall_input.txt", want: "wolf_hall_right_skip_want.txt", widths: &["3in"], tweak: |p, _| p.right_skip = Glue { stretch: sc("20.00003pt"), ..Default::default() } },
+        Golden { test: "wolf_hall_par_fill_skip", input: "wolf_hall_input.txt", want: "wolf_hall_par_fill_skip_want.txt", widths: &["3in"], tweak: |p, _| p.par_fill_skip = Glue::ZERO },
+        Golden {
+            test: "wolf_hall_ragged_right_margin",
+            input: "wolf_hall_input.txt",
+            want: "wolf_hall_ragged_right_margin.txt",
+            widths: &["5in"],
+            tweak: |p, s| {
+                s.ss = Spec::new(sc("3.33298pt").0 as i64, 0, 0);
+                s.xs = Spec::new(sc("5.0pt").0 as i64, 0, 0);
+                p.right_skip = Glue { width: sc("20.0pt"), stretch: sc("20.00003pt"), ..Default::default() };
+            },
+        },
+        Golden { test: "wolf_hall_ex_hyphen_penalty", input: "wolf_hall_stone_eyed_input.txt", want: "wolf_hall_ex_hyphen_penalty_want.txt", widths: &["3in"], tweak: |p, _| p.ex_hyphen_penalty = -10000 },
+        Golden { test: "farewell_to_arms_looseness_plus_1", input: "farewell_to_arms_input.txt", want: "farewell_to_arms_looseness_plus_1_want.txt", widths: &["3in"], tweak: |p, _| p.looseness = 1 },
+        Golden { test: "alice_paragraph_2_10in", input: "alice_paragraph_2.txt", want: "alice_paragraph_2_want.txt", widths: &["10in"], tweak: |_, _| {} },
+    ]
+}
+
+/// Replays TeX-recorded paragraphs through the *model*: the inter-word glue of TeX's lines must be
+/// the space-factor model's, and the model's post_line_break applied to the list re-assembled from
+/// TeX's lines (break glue re-inserted from the space-factor model) must give TeX's lines, glue
+/// settings and penalties back. Returns (problems, number of lines validated).
+fn self_validate(res: &Res) -> (Vec<String>, usize) {
+    let mut errs = vec![];
+    let mut nlines = 0;
+    // (a) boxworks-text/src/lib.rs spacing_tests (TeX-verified): glue after the word, cmr10
+    let spacing: [(&str, &str, &str, &str); 20] = [
+        ("a;", "3.33333", "2.49998", "0.74074"), // default_1
+        ("a,", "3.33333", "2.08331", "0.88889"), // default_2
+        ("a.", "4.44444", "4.99997", "0.37036"), // default_3
+        ("a:", "4.44444", "3.33331", "0.55556"), // default_4
+        ("))", "3.33333", "1.66666", "1.11111"), // adjust_space_factor_zero_zero
+        (")A", "3.33333", "1.66498", "1.11221"), // …_zero_small
+        (")a", "3.33333", "1.66666", "1.11111"), // …_zero_normal
+        (").", "4.44444", "4.99997", "0.37036"), // …_zero_large
+        ("A)", "3.33333", "1.66498", "1.11221"), // …_small_zero
+        ("AA", "3.33333", "1.66498", "1.11221"), // …_small_small
+        ("Aa", "3.33333", "1.66666", "1.11111"), // …_small_normal
+        ("A.", "3.33333", "1.66666", "1.11111"), // …_small_large
+        ("a)", "3.33333", "1.66666", "1.11111"), // …_normal_zero
+        ("aA", "3.33333", "1.66498", "1.11221"), // …_normal_small
+        ("aa", "3.33333", "1.66666", "1.11111"), // …_normal_normal
+        ("a.", "4.44444", "4.99997", "0.37036"), // …_normal_large
+        (".)", "4.44444", "4.99997", "0.37036"), // …_large_zero
+        (".A", "3.33333", "1.66498", "1.11221"), // …_large_small
+        (".a", "3.33333", "1.66666", "1.11111"), // …_large_normal
+        ("..", "4.44444", "4.99997", "0.37036"), // …_large_large
+    ];
+    for (w, gw, gs, gk) in spacing {
+        let t = para::split_words(&format!("{w} a"));
+        match para::text_glues(&t, &para::plain_sf_code, &res.font_space, &Spec::ZERO, &Spec::ZERO, SfSwitches::default(), false) {
+            Ok((g, _)) if g.len() == 1 => {
+                let got = (reftex::arith::print_scaled(g[0].w), reftex::arith::print_scaled(g[0].st), reftex::arith::print_scaled(g[0].sh));
+                if got != (gw.to_string(), gs.to_string(), gk.to_string()) {
+                    errs.push(format!("space-factor model: after {w:?} TeX has glue({gw}, {gs}, {gk}), the model {got:?}"));
+                }
+            }
+            other => errs.push(format!("space-factor model: {w:?} -> {other:?}")),
+        }
+    }
+    // boxworks-text ragged_right: "a b. c" with \spaceskip=3.33298pt \xspaceskip=5.0pt
+    {
+        let t = para::split_words("a b. c");
+        let ss = Spec::new(sc("3.33298pt").0 as i64, 0, 0);
+        let xs = Spec::new(sc("5.0pt").0 as i64, 0, 0);
+        let g = para::text_glues(&t, &para::plain_sf_code, &res.font_space, &ss, &xs, SfSwitches::default(), false).map(|x| x.0);
+        if g != Ok(vec![ss, xs]) {
+            errs.push(format!("space-factor model: ragged_right gives {g:?}"));
+        }
+    }
+    // (b) TeX-recorded paragraphs
+    for gd in goldens() {
+        let dir = format!("{}/crates/boxworks-knuthplass/testdata", res.repo);
+        let (input, want) = match (std::fs::read_to_string(format!("{dir}/{}", gd.input)), std::fs::read_to_string(format!("{dir}/{}", gd.want))) {
+            (Ok(a), Ok(b)) => (a, b),
+            _ => {
+                errs.push(format!("{}: cannot read the test data", gd.test));
+                continue;
+            }
+        };
+        let mut p = kp::Params::plain_tex_defaults();
+        let mut s = skip_sets()[0];
+        (gd.tweak)(&mut p, &mut s);
+        let widths: Vec<Scaled> = gd.widths.iter().map(|w| sc(w)).collect();
+        let pp = par_params(&p, &widths, &[]);
+        let parsed = match boxworks::lang::parse_horizontal_list(&want) {
+            Ok(l) => l,
+            Err(_) => {
+                errs.push(format!("{}: the recorded vlist does not parse", gd.test));
+                continue;
+            }
+        };
+        let Some(H::VBox(vb)) = parsed.first() else {
+            errs.push(format!("{}: the recorded file is not a vbox", gd.test));
+            continue;
+        };
+        let mut boxes: Vec<(&ds::HBox, Option<i64>)> = vec![];
+        for v in &vb.list {
+            match v {
+                V::HBox(b) => boxes.push((b, None)),
+                V::Penalty(pn) => {
+                    if let Some(l) = boxes.last_mut() {
+                        l.1 = Some(pn.0 as i64)
+                    }
+                }
+                _ => {}
+            }
+        }
+        let words: Vec<String> = input.split_ascii_whitespace().map(|w| w.to_string()).collect();
+        let tw = para::Words { leading: false, words, trailing: false };
+        let Ok((mglues, _)) = para::text_glues(&tw, &para::plain_sf_code, &res.font_space, &s.ss, &s.xs, SfSwitches::default(), false) else {
+            errs.push(format!("{}: arithmetic error in the space-factor model", gd.test));
+            continue;
+        };
+        // re-assemble the list from TeX's lines
+        let mut hl: Vec<Item> = vec![];
+        let mut breaks = vec![];
+        let mut ok = true;
+        let tex_lines: Vec<Vec<Item>> = boxes.iter().map(|(b, _)| conv_list(&b.list, &res.fonts)).collect();
+        for (k, l) in tex_lines.iter().enumerate() {
+            let mut c: &[Item] = l;
+            if !pp.left_skip.is_zero_glue() {
+                if c.first() != Some(&Item::Glue(pp.left_skip)) {
+                    errs.push(format!("{}: TeX's line {k} does not begin with \\leftskip", gd.test));
+                    ok = false;
+                    break;
+                }
+                c = &c[1..];
+            }
+            if c.last() != Some(&Item::Glue(pp.right_skip)) {
+                errs.push(format!("{}: TeX's line {k} does not end with \\rightskip", gd.test));
+                ok = false;
+                break;
+            }
+            c = &c[..c.len() - 1];
+            if k + 1 == tex_lines.len() {
+                hl.extend_from_slice(c);
+                breaks.push(hl.len());
+                break;
+            }
+            // a line broken at a discretionary ends: disc{} + pre-break characters ending in a hyphen (or nothing)
+            let m = c.iter().rposition(|i| matches!(i, Item::Disc { pre, post, replace } if pre.is_empty() && post.is_empty() && *replace == 0));
+            let disc_at = m.filter(|m| {
+                let tail = &c[m + 1..];
+                tail.iter().all(|i| matches!(i, Item::Char { .. } | Item::Lig { .. } | Item::Kern { kind: KernKind::Normal, .. })) && (tail.is_empty() || para::spelling(tail).ends_with('-'))
+            });
+            match disc_at {
+                Some(m) => {
+                    hl.extend_from_slice(&c[..m]);
+                    breaks.push(hl.len());
+                    hl.push(Item::Disc { pre: c[m + 1..].to_vec(), post: vec![], replace: 0 });
+                }
+                None => {
+                    hl.extend_from_slice(c);
+                    let gap = glues_of(&hl).len();
+                    breaks.push(hl.len());
+                    match mglues.get(gap) {
+                        Some(g) => hl.push(Item::Glue(*g)),
+                        None => {
+                            errs.push(format!("{}: more glue items in TeX's lines than word gaps", gd.test));
+                            ok = false;
+                            break;
+                        }
+                    }
+                }
+            }
+        }
+        if !ok {
+            continue;
+        }
+        // every inter-word glue TeX produced is the model's
+        let mut tg = glues_of(&hl);
+        let pfs = tg.pop();
+        if pfs != Some(spec(&p.par_fill_skip)) {
+            errs.push(format!("{}: TeX's last line does not end with \\parfillskip", gd.test));
+            continue;
+        }
+        if tg != mglues {
+            let i = tg.iter().zip(mglues.iter()).position(|(a, b)| a != b);
+            errs.push(format!("{}: inter-word glue of TeX differs from the space-factor model at gap {i:?} ({} vs {} gaps)", gd.test, tg.len(), mglues.len()));
+            continue;
+        }
+        match para::post_line_break(&hl, &breaks, &pp, PlbSwitches::default()) {
+            Err(e) => errs.push(format!("{}: model post_line_break fails on TeX's breakpoints: {e}", gd.test)),
+            Ok(model) => {
+                for (k, (m, (b, pen))) in model.iter().zip(boxes.iter()).enumerate() {
+                    nlines += 1;
+                    if m.items != tex_lines[k] {
+                        errs.push(format!("{}: line {k}: model {} TeX {}", gd.test, para::show_list(&m.items), para::show_list(&tex_lines[k])));
+                        break;
+                    }
+                    if m.width != b.width.0 as i64 || m.shift != b.shift_amount.0 as i64 {
+                        errs.push(format!("{}: line {k}: model width/shift {}/{} TeX {}/{}", gd.test, m.width, m.shift, b.width.0, b.shift_amount.0));
+                        break;
+                    }
+                    if m.penalty_after != *pen {
+                        errs.push(format!("{}: after line {k}: model penalty {:?} TeX {pen:?}", gd.test, m.penalty_after));
+                        break;
+                    }
+                    // glue set as printed by TeX §186 (a float there: allow one unit in the last place)
+                    let (n, d) = m.packed.set.magnitude();
+                    let mv = ((2 * n as i128 * 65536 + d as i128) / (2 * d as i128)) as i64;
+                    let tv = (b.glue_ratio.num.0 as i64 * 65536 / b.glue_ratio.den.0.max(1) as i64).abs();
+                    if (mv - tv).abs() > 1 || (n != 0 && m.packed.set.order != b.glue_order as u8) {
+                        errs.push(format!("{}: line {k}: model glue set {} order {} TeX {} {:?}", gd.test, m.packed.set.printed(), m.packed.set.order, b.glue_ratio, b.glue_order));
+                        break;
+                    }
+                    if m.packed.height != b.height.0 as i64 || m.packed.depth != b.depth.0 as i64 {
+                        errs.push(format!("{}: line {k}: model height/depth {}/{} TeX {}/{}", gd.test, m.packed.height, m.packed.depth, b.height.0, b.depth.0));
+                        break;
+                    }
+                }
+                if model.len() != boxes.len() {
+                    errs.push(format!("{}: model has {} lines, TeX {}", gd.test, model.len(), boxes.len()));
+                }
+                // and the conservation reading accepts TeX's own lines
+                if let Err(e) = para::unbreak(&hl, &tex_lines, &pp.left_skip, &pp.right_skip) {
+                    errs.push(format!("{}: unbreak rejects TeX's lines: {e}", gd.test));
+                }
+            }
+        }
+    }
+    // (c) the implementation's plain TeX \sfcode table is the one the model assumes (input data)
+    let codes = bwt::SpaceFactorCodes::plain_tex_defaults();
+    for c in 0..256u32 {
+        if codes.0[c as usize] as i64 != para::plain_sf_code(c) {
+            errs.push(format!("plain TeX \\sfcode of {c} is {} in the crate, {} in the model", codes.0[c as usize], para::plain_sf_code(c)));
+        }
+    }
+    (errs, nlines)
+}
+
+// --------------------------------------------------------------------------------------------- main
+
 fn main() {
-    eprintln!("c12: check not built yet");
-    std::process::exit(2);
+    let mut ctx = Ctx::new("C12", Level::Exploration);
+    ctx.assume("font metrics (width/height/depth of a character, fontdimen 2,3,4,7 of cmr10) are taken from the tfm crate as input data; their correctness is C10/C11/C17");
+    ctx.assume("a text is a non-empty sequence of words separated by blanks, fed in horizontal mode with space factor 1000; a run of blanks is one space token (TeX §344-345); the glue of a trailing space token may be present or absent (line_break §816 removes it)");
+    ctx.assume("width/indent sequences follow \\parshape: line i uses entry min(i, len-1); an empty indent sequence means 0");
+    ctx.assume("'no line begins with discardable material' is read as TeX §879 implements it: lines after the first; material carried from a discretionary's post-break list and the item at which the line itself is broken are exempt");
+    ctx.assume("skip components times space factor/1000 stay below 2^30 sp (beyond that TeX's xn_over_d raises arith_error and the result is undefined)");
+    ctx.assume("the skip settings used contain no infinite-order stretch/shrink whose total cancels to zero in a line (that input class belongs to C15 / defect D13 of hpack); math nodes are not generated (ds::Math has no width yet and HBox::pack rejects it, documented TODO)");
+    ctx.assume("hyphenation itself (which discretionaries are inserted) is C13/C14; here the list left by the hyphenation pass is the list that was broken, and it must still spell the words");
+    ctx.assume("inter-line glue (baselineskip) is not compared: the property does not state it");
+
+    let res = match load_res() {
+        Ok(r) => r,
+        Err(e) => {
+            ctx.machinery_error(e);
+            ctx.finish("-");
+        }
+    };
+
+    if let Some((_fam, case)) = ctx.replay_case() {
+        let mut acc = Acc::default();
+        TRACE.store(true, std::sync::atomic::Ordering::Relaxed);
+        replay(&res, &case, &mut acc);
+        ctx.finish_replay(acc);
+    }
+
+    let (errs, nlines) = self_validate(&res);
+    ctx.extra("model_self_validation", json!({"tex_recorded_spacing_cases": 21, "tex_recorded_paragraphs": goldens().len(), "tex_recorded_lines_reproduced_by_the_model": nlines, "problems": errs}));
+    if !errs.is_empty() {
+        for e in errs.iter().take(8) {
+            ctx.machinery_error(format!("model self-validation: {e}"));
+        }
+        ctx.finish("-");
+    }
+
+    let res = &res;
+    // F1: text -> hlist
+    {
+        let maxw = ctx.pick(3u32, 5u32);
+        let nw = count_words(maxw);
+        let nsk = skip_sets().len() as u64;
+        let n = nw * SPACINGS * nsk;
+        ctx.family("hlist-text", &format!("every sequence of 1..={maxw} words over {VOCAB:?} x {SPACINGS} spacings (single, leading, trailing, double, all) x {nsk} settings of \\spaceskip/\\xspaceskip/\\sfcode"), n, |i, acc| {
+            let d = vcore::digits(i, &[nw, SPACINGS, nsk]);
+            let words = nth_words(d[0]);
+            match spaced(&words, d[1]) {
+                Some(text) => {
+                    check_hlist(i, res, &text, d[2] as usize, acc);
+                    if i % 200_003 == 11 {
+                        acc.sample(i, || json!({"text": text, "skips": skip_sets()[d[2] as usize].name}));
+                    }
+                }
+                None => acc.skipped += 1,
+            }
+        });
+    }
+    // F2: text paragraphs
+    {
+        let gs = geoms().len() as u64;
+        let run = |ctx: &mut Ctx, name: &str, minw: u32, maxw: u32, st: Vec<Vec<usize>>, what: &str| {
+            let lo = if minw <= 1 { 0 } else { count_words(minw - 1) };
+            let nw = count_words(maxw) - lo;
+            let n = nw * gs * st.len() as u64 * 2;
+            let stl = st.len() as u64;
+            let st = &st;
+            ctx.family(name, &format!("every sequence of {minw}..={maxw} words over the vocabulary (3-word sequences extended to 'w1 w2 w3 w1w3 w2') x {gs} width/indent sequences x {stl} parameter settings ({what}) x hyphenation off/on, cmr10"), n, |i, acc| {
+                let d = vcore::digits(i, &[nw, gs, stl, 2]);
+                let words = nth_words(lo + d[0]);
+                let text = para_text(&words);
+                check_text_para(i, res, &text, d[1] as usize, &st[d[2] as usize], d[3] == 1, acc);
+                if i % 300_007 == 13 {
+                    acc.sample(i, || json!({"text": text, "geom": geoms()[d[1] as usize].name, "tweaks": st[d[2] as usize].iter().map(|t| tweaks()[*t].name).collect::<Vec<_>>(), "hyph": d[3] == 1}));
+                }
+            });
+        };
+        let nt = tweaks().len();
+        if ctx.quick() {
+            run(&mut ctx, "para-text", 1, 3, settings(false), &format!("plain TeX defaults and each of {nt} single changes"));
+        } else {
+            run(&mut ctx, "para-text-pairs", 1, 3, settings(true), &format!("defaults, each of {nt} single changes, every pair of changes to different parameters"));
+            run(&mut ctx, "para-text-4", 4, 4, settings(false), &format!("defaults and each of {nt} single changes"));
+            run(&mut ctx, "para-text-5", 5, 5, vec![vec![], vec![18]], "defaults, hyphenpenalty=-2000");
+        }
+    }
+    // F3: hand-built lists
+    {
+        let nb = ctx.pick(3usize, 4usize);
+        let m = slot_menu().len() as u64;
+        let nt = tail_menu().len() as u64;
+        let mut rad: Vec<u64> = vec![m; nb - 1];
+        rad.extend(vec![2u64; nb]);
+        rad.extend([nt, HAND_WIDTHS.len() as u64, HAND_TOLS.len() as u64, HAND_PVS]);
+        let n = vcore::product(&rad);
+        let rad = &rad;
+        ctx.family(
+            "para-handbuilt",
+            &format!("{nb} boxes from {{a,b}} with every choice of {m} inter-box fillers (incl. adjacent glue/penalty/kern, discretionaries with pre/post/replace material, forced breaks) x {nt} list tails x line widths {HAND_WIDTHS:?}pt x tolerance {HAND_TOLS:?} x {HAND_PVS} parameter sets, toy font a=5pt b=3pt c=2pt -=1pt"),
+            n,
+            |i, acc| {
+                let d = vcore::digits(i, rad);
+                let (slots, rest) = d.split_at(nb - 1);
+                let (boxes, rest) = rest.split_at(nb);
+                check_hand(i, slots, boxes, rest[0], rest[1], rest[2], rest[3], acc);
+                if i % 100_003 == 17 {
+                    acc.sample(i, || json!({"slots": slots.iter().map(|s| slot_menu()[*s as usize].0).collect::<Vec<_>>(), "boxes": boxes, "tail": tail_menu()[rest[0] as usize].0, "widths_pt": HAND_WIDTHS[rest[1] as usize], "tolerance": HAND_TOLS[rest[2] as usize], "pv": rest[3]}));
+                }
+            },
+        );
+    }
+    ctx.require("spaceskip_with_sf_not_1000", "\\spaceskip is set and a space follows a space factor other than 1000 (and \\xspaceskip does not take over)");
+    ctx.require("xspaceskip_with_sf_ge_2000", "\\xspaceskip is set and a space follows a space factor >= 2000");
+    ctx.require("sf_below_1000", "a space follows a space factor below 1000");
+    ctx.require("sf_capped_before_space", "the last character before a space has an sfcode above 1000 and follows a space factor below 1000 (capped at 1000, §1034)");
+    ctx.require("sfcode_zero_keeps_factor_before_space", "the last character before a space has sfcode 0 and the space factor it keeps is not 1000");
+    ctx.require("xspaceskip_with_sf_exactly_2000", "\\xspaceskip is set and a space follows a space factor of exactly 2000");
+    ctx.require("extra_space_added", "a space follows a space factor >= 2000 while \\xspaceskip is zero (extra_space is added, §1044)");
+    ctx.require("legal_break_followed_by_discardable", "the list has a legal breakpoint directly followed by a discardable item");
+    ctx.require("pruned_after_break", "TeX §879 deletes at least one discardable item after a chosen break");
+    ctx.require("post_break_carried_over", "a line starts with the post-break list of the discretionary the previous line ended at");
+    ctx.require("break_at_discretionary_with_replace_count", "a chosen break is a discretionary that replaces following items");
+    ctx.require("penalty_sum_zero_no_node", "the penalties of §890 add up to zero, so no penalty node is appended");
+    ctx.require("club_and_widow_on_same_line", "a two-line paragraph: club and widow penalty on the same line");
+    ctx.require("four_or_more_lines", "a paragraph with a line that is neither first, last nor last but one");
+    ctx.require("line_beyond_width_sequence", "a line whose index is past the end of a width sequence of length >= 2");
+    ctx.require("overfull_line", "a line that is overfull (glue set to full shrink)");
+    ctx.finish("hlist: every word sequence x spacing x skip setting (non-trivial = some space follows a space factor other than 1000); paragraphs: every text/list x geometry x parameter setting x hyphenation (non-trivial = the paragraph has at least two lines); all enumerated, nothing sampled; cases are distinct by construction (spacing variants that repeat an earlier text are skipped)");
+}
+
+fn replay(res: &Res, case: &Value, acc: &mut Acc) {
+    let arr = |v: &Value| -> Vec<u64> { v.as_array().map(|a| a.iter().filter_map(|x| x.as_u64()).collect()).unwrap_or_default() };
+    match case["kind"].as_str() {
+        Some("hlist") => check_hlist(0, res, case["text"].as_str().unwrap_or(""), case["skips"].as_u64().unwrap_or(0) as usize, acc),
+        Some("text") => {
+            let tw: Vec<usize> = arr(&case["tweaks"]).into_iter().map(|x| x as usize).collect();
+            check_text_para(0, res, case["text"].as_str().unwrap_or(""), case["geom"].as_u64().unwrap_or(0) as usize, &tw, case["hyph"].as_bool().unwrap_or(false), acc)
+        }
+        Some("hand") => check_hand(0, &arr(&case["slots"]), &arr(&case["boxes"]), case["tail"].as_u64().unwrap_or(0), case["widths"].as_u64().unwrap_or(0), case["tol"].as_u64().unwrap_or(0), case["pv"].as_u64().unwrap_or(0), acc),
+        _ => {
+            eprintln!("replay: unknown case kind");
+            std::process::exit(2);
+        }
+    }
 }
